@@ -48,8 +48,7 @@ class C18(PropertyCheck):
     assumptions = ["A-codec: strings are given in Shift-JIS encoded form; encoding_rs decodes/encodes the generated alphabet losslessly",
                    "f32 fields are transported as bit patterns (from_bits/to_bits) on both sides",
                    "normal form: the value of a typed field whose use_* flag is false is not stored; it reads back as the default 0",
-                   "bytes level: BinArchive serialize -> from_bytes preserves what the reader observes (premise bytes_round_trip of "
-                   "C18_round_trip_bytes; to be discharged by C01)"]
+                   "image (data + strings + 35) below 2^32 (asset_fits)"]
 
     # ------------------------------------------------------------------ generation
     def generate(self, rng, tier):
@@ -196,7 +195,24 @@ TB = ("Trusted: Coq 8.16.1 kernel (vm_compute, no native_compute), no axioms (Pr
       "ExtrOcamlBasic extraction + hand-written OCaml driver, the Rust harness and Python generators/oracles. ")
 
 MANIFEST = dict(
-    text="(filled in below)",
-    note=TB,
-    technique="Coq proof + extracted-model differential check",
+    text="Theorems about an executable Gallina model of AssetSpec::from_stream / compute_flags / append and AssetBinary::from_archive / "
+         "serialize: the reader, the flag computation and the writer are transcribed as three INDEPENDENT tables of the 51 flagged fields "
+         "(each is hand-unrolled in the source); a generic theorem proves that for any common well-formed schema (distinct bits, marker "
+         "bit free, extended fields behind flag byte >= 4) the reader inverts the writer (C18_agreement_implies_round_trip) and the "
+         "agreement of the three concrete tables with one well-formed schema is computed (C18_schemas_agree). Hence for every header "
+         "flags word and every list of specs in normal form (an absent typed field holds its default; values are 32-bit patterns, NaN "
+         "payloads included): the writer builds exactly the cell list flags word ++ records ++ trailing zero word, the reader returns "
+         "the value on every archive showing that layout (C18_round_trip_archive, C18_reader_inverts_layout), 4 flag bytes are used iff "
+         "no extended field is present (C18_short_form), a record occupies |flags| + 4 + 4 * #present fields = the announced size and "
+         "#present = popcount(flags) - marker (C18_record_size), the data-size field of the file is 4 + the announced sizes + 4 "
+         "(C18_data_size), the read loop stops at the trailing zero word (C18_read_loop_stops). "
+         "Byte level (C18_round_trip_final, no premise): for NUL-free strings and image < 2^32, in both arithmetic modes serialize "
+         "succeeds, parse(bytes) returns the same value and re-serializing whatever is re-read gives the same bytes; proved from the "
+         "bin-archive round trip C01 via Proofs/RecsBinBridge.v. Model tied to /repo on every run: value -> serialize -> parse -> "
+         "re-serialize compared line by line with the extracted model (every field toggled alone, adjacent pairs, all-absent, "
+         "all-present, random subsets), plus an independent Python decoder of the image as oracle.",
+    note=TB + "Strings are Shift-JIS encoded byte lists (A-codec). f32 fields are carried as bit patterns on both sides (from_bits/to_bits). "
+              "The normal form is necessary (Example C18_normal_form_needed): the value of a field whose use_* flag is false is not stored.",
+    technique="Coq proof (three transcribed tables = projections of one computed-well-formed schema; cell-list simulation of the writer, layout "
+              "inversion by the reader; byte level from the bin-archive round trip C01) + extracted-model differential check + independent decoder oracle",
     ref="DESIGN.md section 6 (C18)")
